@@ -452,6 +452,171 @@ template <typename FSM>
 struct ZooLogger : FSM::Logger {};
 #endif
 
+//------------------------------------------------------------------------------
+// the state-typed convenience overloads (X<TState>() forwarding to X(stateId<TState>())): instance, controls, plans.
+// TA, TB: two states; TR: a region head.  Never executed.
+
+template <typename FSM, typename TPayload>
+struct TypedWith {
+	template <typename TA, typename TInstance>
+	static void instance(TInstance& m) noexcept {
+		const TPayload p{};
+		m.template changeWith<TA>(p);
+		m.template restartWith<TA>(p);
+		m.template resumeWith<TA>(p);
+		m.template selectWith<TA>(p);
+		ZU(m.template utilizeWith<TA>(p); m.template randomizeWith<TA>(p);)
+		m.template scheduleWith<TA>(p);
+		m.template immediateChangeWith<TA>(p);
+		m.template immediateRestartWith<TA>(p);
+		m.template immediateResumeWith<TA>(p);
+		m.template immediateSelectWith<TA>(p);
+		ZU(m.template immediateUtilizeWith<TA>(p); m.template immediateRandomizeWith<TA>(p);)
+	}
+	template <typename TA, typename TControl>
+	static void control(TControl& c) noexcept {
+		const TPayload p{};
+		c.template changeWith<TA>(p);
+		c.template restartWith<TA>(p);
+		c.template resumeWith<TA>(p);
+		c.template selectWith<TA>(p);
+		ZU(c.template utilizeWith<TA>(p); c.template randomizeWith<TA>(p);)
+		c.template scheduleWith<TA>(p);
+	}
+#ifdef HFSM2_ENABLE_PLANS
+	template <typename TA, typename TB, typename TPlan>
+	static void plan(TPlan& pl) noexcept {
+		const TPayload p{};
+		pl.template changeWith<TA, TB>(p);
+		pl.template restartWith<TA, TB>(p);
+		pl.template resumeWith<TA, TB>(p);
+		pl.template selectWith<TA, TB>(p);
+		ZU(pl.template utilizeWith<TA, TB>(p); pl.template randomizeWith<TA, TB>(p);)
+		pl.template scheduleWith<TA, TB>(p);
+		pl.template changeWith<TA>(1, p);
+		pl.template restartWith<TA>(1, p);
+		pl.template resumeWith<TA>(1, p);
+		pl.template selectWith<TA>(1, p);
+		ZU(pl.template utilizeWith<TA>(1, p); pl.template randomizeWith<TA>(1, p);)
+		pl.template scheduleWith<TA>(1, p);
+	}
+#endif
+};
+
+template <typename FSM>
+struct TypedWith<FSM, void> {
+	template <typename TA, typename TInstance>
+	static void instance(TInstance&) noexcept {}
+	template <typename TA, typename TControl>
+	static void control(TControl&) noexcept {}
+	template <typename TA, typename TB, typename TPlan>
+	static void plan(TPlan&) noexcept {}
+};
+
+template <typename FSM, typename TA, typename TB, typename TR>
+struct Typed {
+	using Payload = typename FSM::Payload;
+
+	template <typename TInstance>
+	static void instance(TInstance& m) noexcept {
+		(void)m.template isActive<TA>();
+		(void)m.template isResumable<TA>();
+		(void)m.template isScheduled<TA>();
+		(void)m.template activeSubState<TR>();
+		(void)m.template access<TA>();
+		(void)m.template isPendingChange<TA>();
+		(void)m.template isPendingEnter<TA>();
+		(void)m.template isPendingExit<TA>();
+		(void)m.template stateId<TA>();
+		(void)m.template regionId<TR>();
+		m.template changeTo<TA>();
+		m.template restart<TA>();
+		m.template resume<TA>();
+		m.template select<TA>();
+		ZU(m.template utilize<TA>(); m.template randomize<TA>();)
+		m.template schedule<TA>();
+		m.template immediateChangeTo<TA>();
+		m.template immediateRestart<TA>();
+		m.template immediateResume<TA>();
+		m.template immediateSelect<TA>();
+		ZU(m.template immediateUtilize<TA>(); m.template immediateRandomize<TA>();)
+		ZH((void)m.template lastTransitionTo<TA>();)
+		ZP(m.template succeed<TA>(); m.template fail<TA>(); auto p = m.template plan<TR>(); plans(p);)
+		TypedWith<FSM, Payload>::template instance<TA>(m);
+	}
+#ifdef HFSM2_ENABLE_PLANS
+	template <typename TPlan>
+	static void plans(TPlan& p) noexcept {
+		p.template change<TA, TB>();
+		p.template restart<TA, TB>();
+		p.template resume<TA, TB>();
+		p.template select<TA, TB>();
+		ZU(p.template utilize<TA, TB>(); p.template randomize<TA, TB>();)
+		p.template schedule<TA, TB>();
+		p.template change<TA>(1);
+		p.template restart<TA>(1);
+		p.template resume<TA>(1);
+		p.template select<TA>(1);
+		ZU(p.template utilize<TA>(1); p.template randomize<TA>(1);)
+		p.template schedule<TA>(1);
+		TypedWith<FSM, Payload>::template plan<TA, TB>(p);
+	}
+#endif
+	template <typename TControl>
+	static void full(TControl& c) noexcept {
+		(void)c.template stateId<TA>();
+		(void)c.template regionId<TR>();
+		(void)c.template isActive<TA>();
+		(void)c.template isResumable<TA>();
+		(void)c.template isScheduled<TA>();
+		(void)c.template activeSubState<TR>();
+		c.template changeTo<TA>();
+		c.template restart<TA>();
+		c.template resume<TA>();
+		c.template select<TA>();
+		ZU(c.template utilize<TA>(); c.template randomize<TA>();)
+		c.template schedule<TA>();
+		ZP(c.template succeed<TA>(); c.template fail<TA>(); auto p = c.template plan<TR>(); plans(p);)
+		ZH((void)c.template lastTransitionTo<TA>();)
+		TypedWith<FSM, Payload>::template control<TA>(c);
+	}
+	template <typename TControl>
+	static void guard(TControl& c) noexcept {
+		(void)c.template isPendingEnter<TA>();
+		(void)c.template isPendingExit<TA>();
+		(void)c.template isPendingChange<TA>();
+	}
+	template <typename TControl>
+	static void query(TControl& c) noexcept {
+		(void)c.template stateId<TA>();
+		(void)c.template regionId<TR>();
+		(void)c.isScheduled(1);
+		(void)c.template isActive<TA>();
+		(void)c.template isResumable<TA>();
+		(void)c.template isScheduled<TA>();
+		(void)c.template activeSubState<TR>();
+		ZH((void)c.template lastTransitionTo<TA>();)
+	}
+};
+
+template <typename FSM, typename TA, typename TB, typename TR>
+struct TypedProbe : FSM::State {
+	using Base = typename FSM::State;
+	using typename Base::ConstControl;
+	using typename Base::Control;
+	using typename Base::FullControl;
+	using typename Base::GuardControl;
+	using typename Base::PlanControl;
+	using T = Typed<FSM, TA, TB, TR>;
+	void probe(FullControl& c, GuardControl& g, ConstControl& q, PlanControl& pc, Control& cc) noexcept {
+		T::full(c);
+		T::guard(g);
+		T::query(q);
+		T::query(pc);
+		T::query(cc);
+	}
+};
+
 template <typename FSM, typename TInstance>
 void exerciseCommon(TInstance& m) noexcept {
 	using Payload = typename FSM::Payload;
@@ -509,6 +674,17 @@ void exerciseManual(TInstance& m) noexcept {
 #endif
 #define ZOO_IN(p) (ZOO_PART == 0 || ZOO_PART == (p))
 
+// the typed control overloads are instantiated through explicit instantiation of the probes (never called)
+#if ZOO_IN(1)
+template struct TypedProbe<z1::FSM, z1::A1, z1::B1, z1::A>;
+#endif
+#if ZOO_IN(2)
+template struct TypedProbe<z2::FSM, z2::C1, z2::SP2, z2::C>;
+#endif
+#if ZOO_IN(3)
+template struct TypedProbe<z3::FSM, z3::A1, z3::X2, z3::A>;
+#endif
+
 inline void buildAll() noexcept {
 	Ctx ctx;
 	(void)ctx;
@@ -524,6 +700,7 @@ inline void buildAll() noexcept {
 		(void)static_cast<const FSM::Instance&>(m).access<z1::A>();
 		(void)m.isActive<z1::A>();
 		m.changeTo<z1::A>();
+		Typed<FSM, z1::A1, z1::B1, z1::A>::instance(m);
 	}
 #endif
 #if ZOO_IN(2)
@@ -531,6 +708,7 @@ inline void buildAll() noexcept {
 		using FSM = z2::FSM;
 		FSM::Instance m{ctx ZU(, rng)};
 		exerciseManual<FSM>(m);
+		Typed<FSM, z2::C1, z2::SP2, z2::C>::instance(m);
 		FSM::Instance c{m};
 	}
 	{
@@ -544,6 +722,7 @@ inline void buildAll() noexcept {
 		using FSM = z3::FSM;
 		FSM::Instance m{ctx ZU(, rng)};
 		exerciseCommon<FSM>(m);
+		Typed<FSM, z3::A1, z3::X2, z3::A>::instance(m);
 		FSM::Instance m2{Ctx{} ZU(, rng)};
 		FSM::Instance c{m};
 	}
